@@ -340,6 +340,26 @@ func inlineCall(F *ssa.Function, call *ssa.Call, g *ssa.Function) {
 	delete(domCache, F)
 	threadContinuation(F, K)
 	fuseBlocks(F)
+	// what the seams have become after fusion: try every block that came out of the splice once more
+	for round := 0; round < 8; round++ {
+		before := len(F.Blocks)
+		for _, b := range append([]*ssa.BasicBlock(nil), F.Blocks...) {
+			live := false
+			for _, x := range F.Blocks {
+				if x == b {
+					live = true
+				}
+			}
+			if !live || !strings.Contains(b.Comment, "inl.") {
+				continue
+			}
+			threadContinuation(F, b)
+		}
+		fuseBlocks(F)
+		if len(F.Blocks) == before {
+			break
+		}
+	}
 }
 
 // checkFunc: light sanity check of a function the inliner touched.
@@ -1132,6 +1152,9 @@ func fuseBlocks(F *ssa.Function) {
 				removeReferrer(ph.Edges[0], ph)
 				replaceUses(ph, ph.Edges[0])
 				Y.Instrs = Y.Instrs[1:]
+			}
+			if strings.Contains(Y.Comment, "inl.") && !strings.Contains(X.Comment, "inl.") {
+				X.Comment += "+" + Y.Comment
 			}
 			X.Instrs = append(X.Instrs[:len(X.Instrs)-1:len(X.Instrs)-1], Y.Instrs...)
 			for _, in := range Y.Instrs {
